@@ -39,7 +39,10 @@ def scenario(prefix, trickle, rnd, step, glue=b''):
         else:
             line = LINES[sym]
             addr = s.aid(line[line.index(b'<') + 1:line.index(b'>')].decode()) if sym in ('MAIL', 'RCPT') else 0
-            s.send(line + (glue if sym == prefix[-1] and sym != 'DATA' else b''), kind=KIND.get(sym, sym), wf=1, addr=addr, content=0)
+            glued = glue if sym == prefix[-1] and sym != 'DATA' else b''
+            s.send(line + glued, kind=KIND.get(sym, sym), wf=1, addr=addr, content=0)
+            if glued:       # (the beginning of the next line, in the same segment)
+                s.ev.append({'t': 'raw', 'lf': 0, 'n': len(glued), 'now': t, 'glued': 1})
             if sym == 'DATA':
                 data_start = t
         last_cmd_done = t
@@ -53,6 +56,7 @@ def scenario(prefix, trickle, rnd, step, glue=b''):
         s.advance_to(t)
         if s.done:
             break
+        s.ev.append({'t': 'raw', 'lf': 1 if b'\n' in piece else 0, 'n': len(piece), 'now': t, 'glued': 0})
         s.feed_raw(piece)
         if not indata and b'\n' in piece:
             # a complete line is a completed (if unknown) command: the command timeout restarts
